@@ -10,6 +10,7 @@ import (
 	sdk "github.com/cosmos/cosmos-sdk/types"
 	"github.com/lavanet/lava/v5/utils/sigs"
 	pairingtypes "github.com/lavanet/lava/v5/x/pairing/types"
+	planstypes "github.com/lavanet/lava/v5/x/plans/types"
 	projectstypes "github.com/lavanet/lava/v5/x/projects/types"
 	subscriptiontypes "github.com/lavanet/lava/v5/x/subscription/types"
 
@@ -244,6 +245,11 @@ func TestC05(t *testing.T) {
 		s.Tx("addproject", "project to be deleted", nil, func(ctx context.Context) (any, error) {
 			return s.TS.Servers.SubscriptionServer.AddProject(ctx, &subscriptiontypes.MsgAddProject{Creator: c0.Addr, ProjectData: projectstypes.ProjectData{Name: "gone", Enabled: true, ProjectKeys: []projectstypes.ProjectKey{projectstypes.ProjectDeveloperKey(goneDev.Addr.String())}}})
 		})
+		sibDev := s.newAccount(1000)
+		s.Tx("addproject", "sibling project with its own (narrower) pairing", nil, func(ctx context.Context) (any, error) {
+			pol := planstypes.Policy{GeolocationProfile: int32(planstypes.Geolocation_GL), TotalCuLimit: 50000, EpochCuLimit: 5000, MaxProvidersToPair: 2}
+			return s.TS.Servers.SubscriptionServer.AddProject(ctx, &subscriptiontypes.MsgAddProject{Creator: c0.Addr, ProjectData: projectstypes.ProjectData{Name: "sib", Enabled: true, Policy: &pol, ProjectKeys: []projectstypes.ProjectKey{projectstypes.ProjectDeveloperKey(sibDev.Addr.String())}}})
+		})
 		s.NextEpoch()
 		s.Tx("delproject", "delete project gone", nil, func(ctx context.Context) (any, error) {
 			return s.TS.Servers.SubscriptionServer.DelProject(ctx, &subscriptiontypes.MsgDelProject{Creator: c0.Addr, Name: "gone"})
@@ -255,6 +261,7 @@ func TestC05(t *testing.T) {
 			if s.Halted {
 				break
 			}
+			c05Sibling(s, run, id, c0, sibDev, hit)
 			for b := 0; b < basesPerRound; b++ {
 				prov, dev, chain, rel, ok := s.honestSessions(1)
 				if !ok {
@@ -310,8 +317,42 @@ func TestC05(t *testing.T) {
 	}
 	run.Require("mutation exercised: signer-project-disabled", hit["signer-project-disabled"] > 0)
 	run.Require("mutation exercised: signer-project-deleted", hit["signer-project-deleted"] > 0)
+	run.Require("mutation exercised: "+c05SiblingName, hit[c05SiblingName] > 0)
 	run.Finish("metamorphic: for relay messages accepted in a scratch context (so valid now), each single-clause corruption (creator, lava chain id, epoch future/stale/negative, spec, signer = stranger / provider / disabled project / deleted project, signature bytes, every signed field changed after signing, unpaired provider, badge address/epoch/chain/signer/allocation) is delivered through the atomic tx wrapper alone and mixed with the valid relay; the corrupted session must never be credited (no relay_payment event group for it in an accepted tx) and a rejected tx must leave the digest of all 26 stores + bank unchanged; afterwards the untouched base must still be accepted; distinct non-trivial = (mutation kind, base session) pairs rejected", 200,
 		"failed txs are rolled back by the driver as baseapp does; the digest comparison therefore checks the driver and the handler together")
+}
+
+const c05SiblingName = "provider-paired-for-sibling-project-only(same block, after the sibling's valid relay)"
+
+// c05Sibling: two projects of one subscription with different pairings. In one block the provider first claims a valid
+// relay of the project it IS paired with and then a relay signed by the other project's key, in whose pairing it is not.
+func c05Sibling(s *Sim, run *ev.Run, id string, c0 *Cons, sibDev sigs.Account, hit map[string]int) {
+	for _, chain := range s.Specs {
+		a := s.pairedProviders(chain, c0.Addr)              // admin project (the consumer's own key)
+		b := s.pairedProviders(chain, sibDev.Addr.String()) // sibling project
+		inB := map[string]bool{}
+		for _, x := range b {
+			inB[x] = true
+		}
+		if len(b) == 0 {
+			continue
+		}
+		for _, prov := range a {
+			if inB[prov] {
+				continue
+			}
+			epoch := int64(s.TS.EpochStart())
+			r1 := s.newSession(c0.Acc, prov, chain, epoch, 7)
+			signSession(c0.Acc, r1)
+			if res := s.sendRelays("relay", prov, []*pairingtypes.RelaySession{r1}, "c05 sibling: valid relay of the paired project"); !res.OK() {
+				continue
+			}
+			r2 := s.newSession(sibDev, prov, chain, epoch, 9)
+			signSession(sibDev, r2)
+			c05send(s, run, id, c05SiblingName, prov, []*pairingtypes.RelaySession{r2}, r2, hit)
+			return
+		}
+	}
 }
 
 func c05send(s *Sim, run *ev.Run, id, name, creator string, relays []*pairingtypes.RelaySession, mutated *pairingtypes.RelaySession, hit map[string]int) {
